@@ -195,6 +195,67 @@ pub fn run(run: &RunInfo) -> Summary {
         });
         acc.merge(sub);
     }
+    // ---- inside the sequences: the first reply of every command with every control field. Outside
+    // the command's reply set the sequence must report an error and nothing else - it must not skip,
+    // acknowledge or reinterpret the packet.
+    {
+        use crate::sim::*;
+        let defs = crate::seqs::sequences();
+        let silencer = crate::wf::silence_stdout();
+        let root = crate::wf::scratch_root("c15");
+        let dir = crate::wf::make_dir(&root, 0, &[(0x10, 17)], false, run.seed);
+        let nseq = defs.len() + 1;
+        let sub = par_for(nseq * 16, |ix, acc| {
+            let (si, part) = (ix / 16, ix % 16);
+            let (name, enum_key) = if si < defs.len() { (defs[si].name, defs[si].reply_enum) } else { ("WriteFile", "WriteFileResponse") };
+            let variants = &reply.iter().find(|(k, _)| *k == enum_key).unwrap().1;
+            let set: Vec<(u8, u8)> = variants.iter().map(|(_, tk)| table.get(tk).ctrl.unwrap()).collect();
+            let cmd = if si < defs.len() { Some(crate::seqs::command_value(&table, &defs[si]).0) } else { None };
+            for class in (part * 16)..(part * 16 + 16) {
+                for instr in 0..=255u8 {
+                    let class = class as u8;
+                    if set.contains(&(class, instr)) {
+                        continue;
+                    }
+                    for body in [&[][..], &[0x00][..]] {
+                        let mut incoming = vec![0x80, 0x00, 0x00];
+                        incoming.extend(frame(class, instr, body));
+                        incoming.extend([0x06, 0x0f, 0x00]);
+                        let sh: Sh = std::rc::Rc::new(std::cell::RefCell::new(vcore::dbx::Ctx::new(vec![], vec![], 0)));
+                        let s = Scripted::new(sh, incoming.clone(), Chunking::Greedy);
+                        s.st.borrow_mut().eof_at = Some(incoming.len());
+                        let log = match &cmd {
+                            Some(v) => (defs[si].run)(v, &s, None),
+                            None => crate::wf::run_writefile(&dir.path, 123456, 8, &s, None),
+                        };
+                        acc.count("cases", 1);
+                        acc.count("calls", 1);
+                        acc.count("sequence_foreign_cases", 1);
+                        let acks = {
+                            let st = s.st.borrow();
+                            st.log.iter().filter(|e| matches!(e, Ev::Write(w) if w[..] == [0x80, 0x00, 0x00])).count()
+                        };
+                        let good = log.panic.is_none() && log.items.len() == 1 && log.items[0].is_err() && log.ended && acks == 0;
+                        if good {
+                            acc.count("sequence_foreign_rejected", 1);
+                        } else {
+                            acc.violation(viol(
+                                format!("c15/sequence/{name}/{class:02x}{instr:02x}/{}", hex(body)),
+                                format!("sequence {name}: the terminal answers the command with {} ({class:02x} {instr:02x} is outside the reply set of {enum_key}), then a completion\nexpected exactly one error and no acknowledgement; got items {:?}, ended={}, acknowledgements written={acks}, panic={:?}", hex(&frame(class, instr, body)), log.items.iter().map(|i| i.as_ref().map(|s| s.chars().take(40).collect::<String>()).map_err(|e| e.chars().take(60).collect::<String>())).collect::<Vec<_>>(), log.ended, log.panic),
+                                1,
+                            ));
+                        }
+                    }
+                }
+            }
+        });
+        acc.merge(sub);
+        let _ = std::fs::remove_dir_all(&root);
+        drop(silencer);
+    }
+    if acc.get("sequence_foreign_rejected") > 0 {
+        acc.witness("control fields outside the reply set were refused by the sequences themselves");
+    }
     // the acknowledgement of a command is a reply like any other: through write_packet_with_ack every
     // control field (empty body and a one-byte body) must be accepted exactly when the Ack parser accepts it
     {
@@ -245,9 +306,9 @@ pub fn run(run: &RunInfo) -> Summary {
         transitions: acc.get("calls"),
         traces_validated: acc.get("variant_agreed") + acc.get("variant_error_agreed"),
         distinct_nontrivial: acc.get("variant_agreed") + acc.get("variant_error_agreed"),
-        rule: format!("17 reply enums x all 65,536 (class, instr) pairs x {} bodies (empty, baseline / all-present / 253..258-byte and >1000-byte bodies of every shipped command); all 256 one-byte bodies for the listed control fields and their one-byte neighbours; all inputs of length 0 and 1; through PacketTransport::read_packet: for every variant of every enum every body of its packet type followed by a second packet (inside / outside the reply set), every placement of one short read or pending poll (1 byte, half, all but one, pending); all 65,536 control fields x 2 bodies in the place of a command's acknowledgement through write_packet_with_ack. distinct_nontrivial = cases with a listed control field in which the parser agreed with the packet type's own decoder", bods.len()),
+        rule: format!("17 reply enums x all 65,536 (class, instr) pairs x {} bodies (empty, baseline / all-present / 253..258-byte and >1000-byte bodies of every shipped command); all 256 one-byte bodies for the listed control fields and their one-byte neighbours; all inputs of length 0 and 1; through PacketTransport::read_packet: for every variant of every enum every body of its packet type followed by a second packet (inside / outside the reply set), every placement of one short read or pending poll (1 byte, half, all but one, pending); all 65,536 control fields x 2 bodies in the place of a command's acknowledgement through write_packet_with_ack; every control field outside the reply set (two bodies) as the first reply of each of the 17 sequences and of the firmware upload: one error, no acknowledgement. distinct_nontrivial = cases with a listed control field in which the parser agreed with the packet type's own decoder", bods.len()),
         exhaustive: true,
-        required_witnesses: vec!["every variant of every reply enum was returned for its own control field".into(), "foreign control fields rejected".into(), "replies read through the transport with split reads and extended lengths were dispatched by their own control field".into(), "acknowledgements of commands were accepted and foreign packets in their place rejected".into()],
+        required_witnesses: vec!["every variant of every reply enum was returned for its own control field".into(), "foreign control fields rejected".into(), "replies read through the transport with split reads and extended lengths were dispatched by their own control field".into(), "acknowledgements of commands were accepted and foreign packets in their place rejected".into(), "control fields outside the reply set were refused by the sequences themselves".into()],
         assumptions: vec!["reply table = DESIGN.md Appendix B (hand written)".into(), "bodies from a finite alphabet".into()],
         bounds: json!({"control_fields": "all 65536 per enum", "bodies": bods.len()}),
         caps_hit: vec![],
